@@ -5,7 +5,12 @@
 EXTENDS O2OSyntax, TLC
 VItems == {"none", "ren", "ghostd", "ghost", "hint_tuple", "hint_struct", "hint_unit", "hint_tuple_ded"}
 \* hint_tuple_ded: a default #[type_hint(as Unit)] written first + #[type_hint(T| as ())] dedicated to each counterpart (the dedicated one counts)
-FItems == {"none", "ren", "expr", "ghostd"}
+FItems == {"none", "ren", "expr", "renexpr", "swap", "swapexpr", "ghostd"}
+\* renexpr: the counterpart field is named (by name or index) AND an inline expression is given;
+\* swap / swapexpr: the mapped payload fields name each other's counterpart fields in mirrored order (field 1 <-> last, ...), without / with expression
+IsRenF(f)  == f \in {"ren", "renexpr", "swap", "swapexpr"}
+HasExprF(f) == f \in {"expr", "renexpr", "swapexpr"}
+IsSwapF(f) == f \in {"swap", "swapexpr"}
 N2S(i) == ToString(i)
 
 VName(i) == "V" \o N2S(i)
@@ -17,8 +22,11 @@ CForm(v) == CASE v.it \in {"hint_tuple", "hint_tuple_ded"} -> "tuple" [] v.it = 
 OwnF(v, j) == IF v.shape = "named" THEN "x" \o N2S(j) ELSE N2S(j - 1)
 Mapped(v) == {j \in DOMAIN v.fs : v.fs[j] # "ghostd"}
 PosF(v, j) == Cardinality({m \in Mapped(v) : m < j})
-CF(v, j) == IF CForm(v) = "named" THEN (IF v.fs[j] = "ren" \/ v.shape = "tuple" THEN "r" \o N2S(j) ELSE "x" \o N2S(j))
-            ELSE N2S(PosF(v, j))
+\* the mapped field that stands at the mirrored position of field j
+Mirror(v, j) == CHOOSE m \in Mapped(v) : PosF(v, m) = Cardinality(Mapped(v)) - 1 - PosF(v, j)
+TargetF(v, j) == IF IsSwapF(v.fs[j]) THEN Mirror(v, j) ELSE j
+CF(v, j) == IF CForm(v) = "named" THEN (IF IsRenF(v.fs[j]) \/ v.shape = "tuple" THEN "r" \o N2S(TargetF(v, j)) ELSE "x" \o N2S(j))
+            ELSE N2S(PosF(v, TargetF(v, j)))
 Tag(i, j, x) == "t" \o N2S(i) \o "_" \o N2S(j) \o "(" \o x \o ")"
 
 WellFormed(in) ==
@@ -26,7 +34,9 @@ WellFormed(in) ==
   /\ \A i \in DOMAIN in.vs : LET v == in.vs[i] IN
        /\ (v.shape = "unit" => v.fs = <<>>) /\ (v.shape # "unit" => Len(v.fs) >= 1)
        \* tuple -> named needs member names (class 9): the generator names every mapped field then
-       /\ (v.shape = "tuple" /\ CForm(v) = "named") => \A j \in Mapped(v) : v.fs[j] = "ren"
+       /\ (v.shape = "tuple" /\ CForm(v) = "named") => \A j \in Mapped(v) : IsRenF(v.fs[j])
+       \* mirrored targets are a permutation only when every mapped field takes part
+       /\ (\E j \in Mapped(v) : IsSwapF(v.fs[j])) => (\A j \in Mapped(v) : IsSwapF(v.fs[j])) /\ Cardinality(Mapped(v)) >= 2
        \* a unit counterpart variant cannot feed payload fields (From) -- only all-ghost payloads are well-formed
        /\ (CForm(v) = "unit" /\ v.shape # "unit") => Mapped(v) = {}
        /\ (CForm(v) # "unit") => (Mapped(v) # {} \/ v.shape = "unit")
@@ -41,18 +51,19 @@ WellFormed(in) ==
 \* From of a counterpart-only variant X<j>: the value of the enum-level ghosts entry (observable as own variant marker "EG<j>")
 \* (modelled through a dedicated unit variant of the deriving enum that is itself a ghost for Into)
 Cell(in, i, k) == [kind |-> k, shape |-> in.vs[i].shape, cform |-> CForm(in.vs[i]), vitem |-> in.vs[i].it,
-                   idx_member_no_action |-> in.vs[i].shape = "tuple" /\ CForm(in.vs[i]) # "named" /\ \E j \in DOMAIN in.vs[i].fs : in.vs[i].fs[j] = "ren"]
+                   idx_member_no_action |-> in.vs[i].shape = "tuple" /\ CForm(in.vs[i]) # "named" /\ \E j \in DOMAIN in.vs[i].fs : in.vs[i].fs[j] \in {"ren", "swap"},
+                   crossed |-> \E j \in DOMAIN in.vs[i].fs : IsSwapF(in.vs[i].fs[j])]
 \* From: counterpart variant i (non-ghost) with leaves "D.<cf>"  ->  own variant i
 FromExp(in, i) ==
   LET v == in.vs[i] IN
   [variant |-> VName(i),
    leaves |-> {[leaf |-> OwnF(v, j), val |-> IF v.fs[j] = "ghostd" THEN "g" \o N2S(i) \o "_" \o N2S(j) \o "()"
-                                             ELSE IF v.fs[j] = "expr" THEN Tag(i, j, "D." \o CF(v, j)) ELSE "D." \o CF(v, j)] : j \in DOMAIN v.fs}]
+                                             ELSE IF HasExprF(v.fs[j]) THEN Tag(i, j, "D." \o CF(v, j)) ELSE "D." \o CF(v, j)] : j \in DOMAIN v.fs}]
 \* Into: own variant i with leaves "S.<own>"  ->  counterpart variant, or the ghost default, or the default case
 IntoExp(in, i) ==
   LET v == in.vs[i] IN
   IF v.it = "ghostd" THEN [variant |-> "GHOSTDEFAULT" \o N2S(i), leaves |-> {}]
   ELSE IF v.it = "ghost" THEN [variant |-> "DEFAULTCASE", leaves |-> {}]
   ELSE [variant |-> CVName(in, i),
-        leaves |-> {[leaf |-> CF(v, j), val |-> IF v.fs[j] = "expr" THEN Tag(i, j, "S." \o OwnF(v, j)) ELSE "S." \o OwnF(v, j)] : j \in Mapped(v)}]
+        leaves |-> {[leaf |-> CF(v, j), val |-> IF HasExprF(v.fs[j]) THEN Tag(i, j, "S." \o OwnF(v, j)) ELSE "S." \o OwnF(v, j)] : j \in Mapped(v)}]
 =============================================================================
